@@ -86,6 +86,13 @@ end
 
 /-! ### value → JSON value (what the generated MarshalJSON denotes) -/
 
+/-- does a member list declare composite-level additionalProperties? (`newSchemaType`, allOf: an
+    inline member's additionalProperties become the composite's; the last such member wins) -/
+def laterAddl : List (Bool × Schema) → Bool
+  | [] => false
+  | (false, .obj _ (some _) _) :: _ => true
+  | _ :: ms => laterAddl ms
+
 mutual
 def toJ : Schema → Val → Except String J
   | .prim _ nullable, v =>
@@ -118,7 +125,13 @@ def toJ : Schema → Val → Except String J
     | _ => .error "obj: bad value"
   | .allOf members, v =>
     match v with
-    | .obj fs _ => (toJMembers members fs).map J.obj
+    | .obj fs ax =>
+      match toJMembers members fs with
+      | .error e => .error e
+      | .ok ms =>
+        match ax with
+        | none => .ok (.obj ms)
+        | some xs => (toJCompAddl members xs).map (fun xm => J.obj (ms ++ xm))
     | _ => .error "allOf: bad value"
   | .oneOf alts _, v =>
     match v with
@@ -175,6 +188,12 @@ def toJMembers : List (Bool × Schema) → List Val → Except String (List (Str
       | .ok more => .ok (mm ++ more)
       | .error e => .error e
   | (false, _) :: _, _ => .error "allOf: inline member is not an object"
+/-- the composite's additional values, encoded with the schema of the last inline member that
+    declares additionalProperties -/
+def toJCompAddl : List (Bool × Schema) → List (String × Val) → Except String (List (String × J))
+  | [], _ => .error "allOf: additional values without additionalProperties"
+  | (false, .obj _ (some a) _) :: ms, xs => if laterAddl ms then toJCompAddl ms xs else toJAddl a xs
+  | _ :: ms, xs => toJCompAddl ms xs
 end
 
 /-! ### canonical dump of a value (what the harness prints for the Go value) -/
@@ -191,7 +210,10 @@ def dumpVal : Schema → Val → String
     "{" ++ ",".intercalate (dumpFields fields fs ++ (match addl with
       | none => []
       | some a => ["map{" ++ ",".intercalate (((dumpAddl a (ax.getD [])).foldr insertSorted []).map (fun kv => toHex kv.1 ++ "=" ++ kv.2)) ++ "}"])) ++ "}"
-  | .allOf members, .obj fs _ => "{" ++ ",".intercalate (dumpMembers members fs) ++ "}"
+  | .allOf members, .obj fs ax =>
+    "{" ++ ",".intercalate (dumpMembers members fs ++ (if laterAddl members then
+      ["map{" ++ ",".intercalate (((dumpCompAddl members (ax.getD [])).foldr insertSorted []).map (fun kv => toHex kv.1 ++ "=" ++ kv.2)) ++ "}"]
+      else [])) ++ "}"
   | .oneOf alts _, .alt i v => "{" ++ ",".intercalate (dumpAlts alts i v) ++ "}"
   | _, _ => "?"
 def dumpAlts : List (List String × Schema) → Nat → Val → List String
@@ -214,6 +236,10 @@ def dumpMembers : List (Bool × Schema) → List Val → List String
   | (true, _) :: _, [] => []
   | (false, .obj fields _ _) :: ms, vs => dumpFields fields vs ++ dumpMembers ms (vs.drop fields.length)
   | (false, _) :: ms, vs => dumpMembers ms vs
+def dumpCompAddl : List (Bool × Schema) → List (String × Val) → List (String × String)
+  | [], _ => []
+  | (false, .obj _ (some a) _) :: ms, xs => if laterAddl ms then dumpCompAddl ms xs else dumpAddl a xs
+  | _ :: ms, xs => dumpCompAddl ms xs
 end
 
 end Goag.JsonM
@@ -416,7 +442,16 @@ def decode (tbl : LeafDec) : Schema → J → Except DErr Val
     | _ => .error (.type none)
   | .allOf members, j =>
     match j with
-    | .obj ms => (decodeMembers tbl members ms).map (fun vs => Val.obj vs none)
+    | .obj ms =>
+      match decodeMembers tbl members ms with
+      | .error e => .error e
+      | .ok (vs, rest) =>
+        if laterAddl members then
+          match decodeCompAddl tbl members rest with
+          | .error e => .error e
+          | .ok [] => .ok (.obj vs none)
+          | .ok xs => .ok (.obj vs (some xs))
+        else .ok (.obj vs none)
     | _ => .error (.type none)
   | .oneOf alts disc, j =>
     match disc with
@@ -467,8 +502,8 @@ def decodeAddl (tbl : LeafDec) : Schema → List (String × J) → Except DErr (
     | .ok v => match decodeAddl tbl s rest with
       | .error e => .error e
       | .ok xs => .ok ((k, v) :: xs)
-def decodeMembers (tbl : LeafDec) : List (Bool × Schema) → List (String × J) → Except DErr (List Val)
-  | [], _ => .ok []
+def decodeMembers (tbl : LeafDec) : List (Bool × Schema) → List (String × J) → Except DErr (List Val × List (String × J))
+  | [], m => .ok ([], m)
   | (true, .obj fields addl _) :: ms, m =>
     match decodeFields tbl fields m with
     | .error e => .error e
@@ -477,14 +512,19 @@ def decodeMembers (tbl : LeafDec) : List (Bool × Schema) → List (String × J)
       | some _ => .error (.unmodelled "embedded member with additionalProperties")
       | none => match decodeMembers tbl ms rest with
         | .error e => .error e
-        | .ok more => .ok (Val.obj vs none :: more)
+        | .ok (more, left) => .ok (Val.obj vs none :: more, left)
   | (false, .obj fields _ _) :: ms, m =>
     match decodeFields tbl fields m with
     | .error e => .error e
     | .ok (vs, rest) => match decodeMembers tbl ms rest with
       | .error e => .error e
-      | .ok more => .ok (vs ++ more)
+      | .ok (more, left) => .ok (vs ++ more, left)
   | _ :: _, _ => .error (.unmodelled "allOf member is not an object")
+/-- keys left over by every member go to the composite's additional properties -/
+def decodeCompAddl (tbl : LeafDec) : List (Bool × Schema) → List (String × J) → Except DErr (List (String × Val))
+  | [], _ => .ok []
+  | (false, .obj _ (some a) _) :: ms, rest => if laterAddl ms then decodeCompAddl tbl ms rest else decodeAddl tbl a rest
+  | _ :: ms, rest => decodeCompAddl tbl ms rest
 def decodeDisc (tbl : LeafDec) : List (List String × Schema) → String → J → Nat → Except DErr Val
   | [], _, _, _ => .error .discriminator
   | (vals, s) :: rest, kc, j, i =>
@@ -560,7 +600,10 @@ def conforms : Schema → J → Bool
     | _ => false
   | .allOf members, j =>
     match j with
-    | .obj ms => keysNodup ms && allMembers members ms && ms.all (fun kv => (declaredNames members).contains kv.1)
+    | .obj ms =>
+      let extras := ms.filter (fun kv => !(declaredNames members).contains kv.1)
+      keysNodup ms && allMembers members ms &&
+        (if laterAddl members then compExtrasConform members (extras.map (·.2)) else extras.isEmpty)
     | _ => false
   | .oneOf alts _, j => anyAlt alts j
 def conformsAll : Schema → List J → Bool
@@ -580,6 +623,10 @@ def allMembers : List (Bool × Schema) → List (String × J) → Bool
 def anyAlt : List (List String × Schema) → J → Bool
   | [], _ => false
   | (_, s) :: rest, j => conforms s j || anyAlt rest j
+def compExtrasConform : List (Bool × Schema) → List J → Bool
+  | [], _ => true
+  | (false, .obj _ (some a) _) :: ms, js => if laterAddl ms then compExtrasConform ms js else conformsAll a js
+  | _ :: ms, js => compExtrasConform ms js
 end
 
 /-- harness encoding of a document: {"r": canonical leaf text} | null | {"a":[..]} | {"o":[[k, J]..]} -/
@@ -637,7 +684,9 @@ def prune (tbl : LeafDec) : Schema → J → J
     | j => j
   | .allOf members, j =>
     match j with
-    | .obj ms => .obj (pruneMembers tbl members ms)
+    | .obj ms =>
+      let extras := ms.filter (fun kv => !(declaredNames members).contains kv.1)
+      .obj (pruneMembers tbl members ms ++ (if laterAddl members then pruneCompExtras tbl members extras else []))
     | j => j
   | .oneOf alts _, j => pruneAlt tbl alts j
 def pruneList (tbl : LeafDec) : Schema → List J → List J
@@ -656,6 +705,10 @@ def pruneMembers (tbl : LeafDec) : List (Bool × Schema) → List (String × J) 
   | [], _ => []
   | (_, .obj fields _ _) :: rest, ms => pruneFields tbl fields ms ++ pruneMembers tbl rest ms
   | _ :: rest, ms => pruneMembers tbl rest ms
+def pruneCompExtras (tbl : LeafDec) : List (Bool × Schema) → List (String × J) → List (String × J)
+  | [], _ => []
+  | (false, .obj _ (some a) _) :: ms, xs => if laterAddl ms then pruneCompExtras tbl ms xs else pruneExtras tbl a xs
+  | _ :: ms, xs => pruneCompExtras tbl ms xs
 /-- the first alternative the document conforms to -/
 def pruneAlt (tbl : LeafDec) : List (List String × Schema) → J → J
   | [], j => j
